@@ -558,6 +558,30 @@ def qa_siblings(ctx: Ctx):
     if hs:
         eq("sim-has-sparse-flag", hs[0], sq[0], "has_sparse_choice_vars tests the selection that is used",
            flagsets=({},))
+    # 4b. the segments / indexers exist exactly when the rows of the space are filtered (same existence flag)
+    scs = prog.frame("lcm.state_space.create_state_choice_space")
+    try:
+        sp_calls = calls_in_frame(prog, scs, "lcm.interfaces.Space")
+        sv = kw(sp_calls[0], "sparse_vars") if sp_calls else None
+        seg = next((x for x in walk(scs.ret) if x[0] in ("phi", "ifexp") and any(
+            callee_name(y) == "lcm.state_space.create_indexers_and_segments" for y in walk(x[2])) and not any(
+            callee_name(y) == "lcm.state_space.create_indexers_and_segments" for y in walk(x[3]))
+            and x[3] == ("const", None) and x[2][0] == "sub" and callee_name(x[2][1]) == "lcm.state_space.create_indexers_and_segments"), None)
+        if sv is not None and sv[0] in ("phi", "ifexp") and seg is not None:
+            for flags in ({"is_last_period": False}, {"is_last_period": True}):
+                fa_, fb_ = exists_formula(sv[1], flags), exists_formula(seg[1], flags)
+                a_, b_ = uni.select(fa_), uni.select(fb_)
+                tag = "last" if flags["is_last_period"] else "nonlast"
+                ctx.ob(f"QA3:segments-flag-vs-filter-flag:{tag}", bool(a_) == bool(b_) and a_ == b_, prog.where(seg),
+                       "indexers and segments are built exactly when the space is filtered (same existence test)" if a_ == b_ else
+                       f"rows are filtered when some variable is {show_formula(fa_)}, but indexers/segments are built when some variable is "
+                       f"{show_formula(fb_)}: for {describe_set(uni, a_ ^ b_)} the space has filtered rows without segments (or vice versa)",
+                       lhs=show_formula(fa_), rhs=show_formula(fb_))
+                ctx.count("sibling_pairs")
+        else:
+            ctx.undecided("QA3:segments-flag-vs-filter-flag", "flags guarding the filtered rows / the segments not recognised", prog.where(scs.ret))
+    except AnalysisError as e:
+        ctx.undecided("QA3:segments-flag-vs-filter-flag", f"flags not recognised: {e}")
     # 5. n_sparse_states vs indexer axis names vs restricted states
     eq("n-sparse-states-vs-indexer-axes", R.n_sparse_states(), R.indexer_axis_names(),
        "number of state axes of the mask == axes of the state indexer")
